@@ -141,6 +141,9 @@ func (h *MultiHandler) canAccept(msg *Message) bool {
 func (h *MultiHandler) Accept(msg *Message) {
 	h.mtx.Lock()
 	defer h.mtx.Unlock()
+	// A malformed message must never crash the party: a panic while decoding or processing it ends the session cleanly.
+	// Nobody is named, since the panic may have been raised while finalizing a round with several parties' inputs.
+	defer h.recoverToAbort()
 
 	// exit early if the message is bad, or if we are already done
 	if !h.canAccept(msg) || h.err != nil || h.result != nil || h.duplicate(msg) {
@@ -330,6 +333,15 @@ func (h *MultiHandler) finalize() {
 
 	// we only do this if the current round has changed
 	h.finalize()
+}
+
+// recoverToAbort turns a panic raised while processing a message into a clean abort of the session.
+func (h *MultiHandler) recoverToAbort() {
+	if r := recover(); r != nil {
+		if h.err == nil && h.result == nil {
+			h.abort(fmt.Errorf("panic while processing message: %v", r))
+		}
+	}
 }
 
 func (h *MultiHandler) abort(err error, culprits ...party.ID) {
